@@ -159,16 +159,16 @@ macro_rules! lookup {
     };
 }
 
-/// Instrumented source iterator (allocation free).
+/// Instrumented source iterator (its buffer is built before the call into micromap; taking from it
+/// and freeing it make no allocator call that is counted).
 pub struct Src<T> {
-    items: [Option<T>; 12],
+    items: Vec<Option<T>>,
     pos: usize,
     pulls: bool,
 }
 impl<T> Src<T> {
     fn new(v: Vec<T>, pulls: bool) -> Self {
-        let mut it = v.into_iter();
-        Src { items: std::array::from_fn(|_| it.next()), pos: 0, pulls }
+        Src { items: v.into_iter().map(Some).collect(), pos: 0, pulls }
     }
 }
 impl<T> Iterator for Src<T> {
@@ -716,7 +716,7 @@ pub fn map_op<const N: usize>(cx: &mut Cx, m: &mut MapN<N>, op: &MapOp) -> Strin
             drop(x);
             "()".into()
         }
-        MapOp::CloneTo(_) | MapOp::CloneFrom(_) | MapOp::Eq(_) | MapOp::FromIter(..) | MapOp::Serde(..) => unreachable!(),
+        MapOp::CloneTo(_) | MapOp::CloneFrom(_) | MapOp::Eq(_) | MapOp::FromIter(..) | MapOp::Serde(..) | MapOp::Deser(..) => unreachable!(),
     }
 }
 
@@ -1290,6 +1290,24 @@ pub mod serde_rt {
         }
     }
 
+    /// the token stream of a map / a set with the given entries, in that order (repeats included)
+    pub fn enc_of_pairs(xs: &[(u16, i32)], hint: u8) -> Enc {
+        let mut t = vec![Tk::MapStart(Some(xs.len()))];
+        for (c, v) in xs {
+            t.push(Tk::U64((*c as u64) << 32));
+            t.push(Tk::U64((*v as u32) as u64));
+        }
+        t.push(Tk::End);
+        Enc::Tok(t, hint % 4)
+    }
+    pub fn enc_of_keys(xs: &[u16], hint: u8) -> Enc {
+        let mut t = vec![Tk::SeqStart(Some(xs.len()))];
+        for c in xs {
+            t.push(Tk::U64((*c as u64) << 32));
+        }
+        t.push(Tk::End);
+        Enc::Tok(t, hint % 4)
+    }
     pub fn encode_map<const N: usize>(m: &MapN<N>, fmt: u8) -> Option<(String, usize, Enc)> {
         encode(m, fmt, 2)
     }
